@@ -35,6 +35,9 @@ def cases(tier, seed):
     for n, d, io, bias in itertools.product(nf, dg, (False, True), (False, True)):
         out.append({"gen": "cfg", "id": "n%d-d%d-io%d-b%d" % (n, d, io, bias), "n": n, "d": d,
                     "io": io, "bias": bias, "seed": seed})
+    for n, d, io, bias in ((11, 2, False, True), (12, 2, True, False), (13, 2, False, False), (11, 3, True, True)):
+        out.append({"gen": "cfg", "id": "wide-n%d-d%d-io%d-b%d" % (n, d, io, bias), "n": n, "d": d, "io": io,
+                    "bias": bias, "seed": seed})
     for k in range(48 if tier == "quick" else 600):
         out.append({"gen": "history", "id": "history-%d" % k, "sub": seed * 100003 + k,
                     "max_n": max(nf), "max_d": max(dg)})
@@ -185,9 +188,12 @@ def run_history(case, ctx):
                 m.set_params(kind=kind)
         else:
             d, io, bias = m.poly_degree, m.poly_interaction_only, m.poly_include_bias
-        X = rng.randn(5, n)
-        X2 = rng.randn(3, n)
-        hist.append({"n_features": n, "degree": d, "interaction_only": io, "include_bias": bias, "kind": kind})
+        dt_fit, dt_tr = [("float64", "float64"), ("int64", "float64"), ("float32", "float64"),
+                         ("float64", "float32"), ("int64", "int64")][rng.randint(5)]
+        X = (rng.randn(5, n) * 3).astype(dt_fit)
+        X2 = (rng.randn(3, n) * 3).astype(dt_tr)
+        hist.append({"n_features": n, "degree": d, "interaction_only": io, "include_bias": bias, "kind": kind,
+                     "fit_dtype": dt_fit, "transform_dtype": dt_tr})
         cfg = {"history": list(hist), "sub": case["sub"]}
         ref = PolynomialFeatures(degree=d, interaction_only=io, include_bias=bias).fit(X)
         try:
@@ -199,9 +205,10 @@ def run_history(case, ctx):
                 type(e).__name__, e), cfg=cfg)
             return
         ctx.hit("history.steps")
-        exps = [ref.transform(X), ref.transform(X2), ref.transform(X)]
+        exps = [ref.transform(X.astype(float)), ref.transform(X2.astype(float)), ref.transform(X.astype(float))]
         for k, (g, e) in enumerate(zip(outs, exps)):
-            if g.shape != e.shape or not numpy.allclose(g, e, rtol=1e-12, atol=1e-15):
+            f32 = (X2 if k == 1 else X).dtype == numpy.float32
+            if g.shape != e.shape or not numpy.allclose(g, e, rtol=1e-4 if f32 else 1e-12, atol=1e-15):
                 ctx.violation("C11/history/values-differ", "transform #%d after step %d differs from "
                               "PolynomialFeatures (shape %r vs %r)" % (k, step, g.shape, e.shape), cfg=cfg)
                 break
@@ -299,8 +306,10 @@ def run_case(case, ctx):
                 ctx.violation("C11/n_output_features", "n_output_features_=%r, columns=%d" % (
                     m.n_output_features_, exp.shape[1]), cfg=cfg, kind=kind)
         # ---- monitor 3: names
-        for names in (None, ["a", "bb", "c1", "d", "zz", "f", "g9", "h"][:n],
-                      ["x%d" % (i + 9) for i in range(n)]):
+        pad = ["v%d" % i for i in range(20)]
+        for names in (None, (["a", "bb", "c1", "d", "zz", "f", "g9", "h"] + pad)[:n],
+                      ["x%d" % (i + 9) for i in range(n)],
+                      (["a", "ab", "abc", "b", "ba", "len", "length", "x"] + pad)[:n]):   # names that are substrings
             m = ExtendedFeatures(kind=kind, poly_degree=d, poly_interaction_only=io, poly_include_bias=bias)
             m.fit(Xg)
             try:
